@@ -1237,7 +1237,10 @@ mod imp {
         let cut_possible = clauses.iter().any(|c| all.iter().filter(|v| elig(v, c)).count() > knobs(c, limit).0);
         if !vector_only && text_cut {
           s.count("exact.skipped-text-side-cut");
-        } else if single || !cut_possible {
+        } else if (single && vector_only) || !cut_possible {
+          // (a hybrid request keeps text hits that are not among the k nearest neighbours, with
+          // the missing-vector penalty: positions after the k-th neighbour are only comparable
+          // when no clause can be cut)
           // expected final score of every potential hit with complete candidate information
           let mut exp: Vec<(f64, String)> = Vec::new();
           for v in &all {
